@@ -198,10 +198,25 @@ func init() {
 	}
 	// K-range-mixed-kind: one bound is a number, the other a string
 	cp["range-mixed-kind"] = func(c *Case, f *Failure) bool {
-		isNumLeaf := func(n *CNode) bool { p := n.leafPrim(); return strings.HasPrefix(p, "i:") || strings.HasPrefix(p, "f:") }
+		isNumLeaf := func(n *CNode) bool {
+			p := n.leafPrim()
+			return strings.HasPrefix(p, "i:") || strings.HasPrefix(p, "f:")
+		}
 		return boundIs(treeOf(f), func(mn, mx *CNode, incl bool) bool {
 			return (isNumLeaf(mn) && isStrLeaf(mx)) || (isNumLeaf(mx) && isStrLeaf(mn))
 		})
+	}
+	// K-json-bigint-bound: an integer range bound that float64 cannot hold exactly
+	cp["bigint-range-bound"] = func(c *Case, f *Failure) bool {
+		big := func(n *CNode) bool {
+			p := n.leafPrim()
+			if !strings.HasPrefix(p, "i:") {
+				return false
+			}
+			v, err := strconv.ParseInt(p[2:], 10, 64)
+			return err == nil && int64(float64(v)) != v || (err == nil && (v > 1<<53 || v < -(1<<53)) && float64(v) != float64(int64(float64(v))))
+		}
+		return boundIs(treeOf(f), func(mn, mx *CNode, incl bool) bool { return big(mn) || big(mx) })
 	}
 	// K-like-meta: a wildcard pattern containing a SIMILAR TO metacharacter besides the translated * and ?
 	cp["like-meta"] = func(c *Case, f *Failure) bool {
@@ -227,9 +242,13 @@ func init() {
 	cp["escape-wild"] = func(c *Case, f *Failure) bool { return c.Rel == "escaped" && strings.ContainsAny(c.Want, "*?") }
 	cp["escape-backslash"] = func(c *Case, f *Failure) bool { return c.Rel == "escaped" && strings.Contains(c.Want, `\`) }
 	// C11 classes, judged on the tree parsed WITH the default field
-	isBare := func(n *CNode) bool { return n != nil && n.Kind == "expr" && (n.Op == 11 || n.Op == 12 || n.Op == 13) && n.L != nil && n.L.Kind == "prim" }
+	isBare := func(n *CNode) bool {
+		return n != nil && n.Kind == "expr" && (n.Op == 11 || n.Op == 12 || n.Op == 13) && n.L != nil && n.L.Kind == "prim"
+	}
 	cp["df-unary"] = func(c *Case, f *Failure) bool {
-		return treeOf(f).any(func(x *CNode) bool { return x.Kind == "expr" && (x.Op == 7 || x.Op == 8 || x.Op == 9 || x.Op == 10) && isBare(x.L) })
+		return treeOf(f).any(func(x *CNode) bool {
+			return x.Kind == "expr" && (x.Op == 7 || x.Op == 8 || x.Op == 9 || x.Op == 10) && isBare(x.L)
+		})
 	}
 	cp["df-pattern"] = func(c *Case, f *Failure) bool {
 		t := treeOf(f)
